@@ -8,6 +8,7 @@ C22 line-protocol driver.
 `seg <hex> => <entries>`                     : the real segment file written by that run.
 `trunc keys t => recovered|error`            : real `aof.New` on the file cut at byte `t`.
 `torn keys start j fillhex kind => …`        : real `aof.New` on `file[0, start+j) ++ fill`.
+`tornmid keys start j fillhex kind => …`     : real `aof.New` on `file[0, start+j) ++ fill ++ file[start+j+|fill|, …)`.
 
 Model prediction: `reopenBytes` (the function the theorems are about) with the executable codec
 `tableCodec`: byte-level framing, protobuf `LogEntry` parse, CRC-64/ECMA, version check; the entry data
@@ -72,6 +73,11 @@ def step (st : St) (toks : List String) (rhs : String) : St × Verdict :=
     match parseList ks, start.toNat?, j.toNat?, hexToBytes fill with
     | some keys, some start, some j, some fill => (st, judge st keys (st.seg.take (start + j) ++ fill) rhs)
     | _, _, _, _ => (st, .bad "torn args")
+  | ["tornmid", ks, start, j, fill, _kind] =>
+    match parseList ks, start.toNat?, j.toNat?, hexToBytes fill with
+    | some keys, some start, some j, some fill =>
+      (st, judge st keys (st.seg.take (start + j) ++ fill ++ st.seg.drop (start + j + fill.length)) rhs)
+    | _, _, _, _ => (st, .bad "tornmid args")
   | _ =>
     match parseMutation toks with
     | none => (st, .bad "unknown op")
